@@ -128,6 +128,47 @@ def null_guarded(f, p, decl):
     return False
 
 
+WIDTH = {'unsigned char': 1, 'unsigned short': 2, 'unsigned int': 4, 'unsigned long': 8, 'char': 1, 'short': 2, 'int': 4, 'long': 8}
+
+
+def size_proof(f, d, decl_stmt):
+    """the fetchNoCopy(n) feeding local d is dominated by a guard  n > size - H  /  n + H > size (wide)  whose true edge leaves,
+    with H = the number of bytes extracted from the same Deserializer before"""
+    call = None
+    for x in f.walk(d['init']):
+        if f.stmts[x]['k'] in q.CALL_KINDS and f.stmts[x].get('fn') == 'fetchNoCopy':
+            call = f.stmts[x]
+    if call is None:
+        return False
+    n = f.s(f.strip_casts(call['args'][0]))
+    if not (n and n['k'] == 'DeclRefExpr'):
+        return False
+    wl = wire_locals(f)
+    if n['d'] not in wl:
+        return False
+    p = q.pt(f, call)
+    consumed = 0
+    for dd, x in wl.items():
+        consumed += WIDTH.get((x.get('ct') or x.get('t') or '').replace('uint16_t', 'unsigned short').replace('uint32_t', 'unsigned int'), 0)
+    for cond, k, b in f.cfg.controlling_branches(p):
+        cs = f.s(f.strip_casts(cond))
+        if not cs or cs['k'] != 'BinaryOperator' or cs.get('op') not in ('>', '<', '>=', '<='):
+            continue
+        ids = list(f.walk(cond))
+        if not any(f.stmts[y].get('d') == n['d'] for y in ids if f.stmts[y]['k'] == 'DeclRefExpr'):
+            continue
+        if not any(f.stmts[y]['k'] == 'DeclRefExpr' and 'size' in (f.stmts[y].get('n') or '') for y in ids):
+            continue
+        narrow = ('unsigned int', 'int', 'unsigned short', 'short')
+        if any(f.stmts[y]['k'] == 'BinaryOperator' and f.stmts[y].get('op') in ('+', '-', '*') and (f.stmts[y].get('ct') or f.stmts[y].get('t')) in narrow for y in ids):
+            continue
+        hs = [f.stmts[y].get('cv') for y in ids if f.stmts[y].get('cv') is not None and f.stmts[y]['k'] in ('ImplicitCastExpr', 'DeclRefExpr', 'IntegerLiteral')]
+        # "n > size - H" true edge returns  <=>  we are on the false edge
+        if cs['op'] in ('>', '>=') and k == 1 and consumed in hs:
+            return True
+    return False
+
+
 def r3(ctx, prog):
     ctx.rule('C14.R3', 'A9d: the pointer returned by Deserializer::fetchNoCopy is tested for null before it is used', floor=1)
     n = 0
@@ -150,8 +191,12 @@ def r3(ctx, prog):
                                 continue
                             if up is not None and not null_guarded(f, up, d['d']):
                                 bad.append(u)
-                        ctx.ob('C14.R3', '%s|%s' % (f.name, d['n']), not bad,
-                               'every use of %s is under a null test' % d['n'] if not bad else
+                        why = 'every use of %s is under a null test' % d['n']
+                        if bad and size_proof(f, d, st):
+                            bad = []
+                            why = ('fetchNoCopy(n) cannot fail here: n is compared with the data size minus the header size on a dominating branch '
+                                   '(no narrow addition) and the header size constant equals the bytes read before')
+                        ctx.ob('C14.R3', '%s|%s' % (f.name, d['n']), not bad, why if not bad else
                                'pointer %s from fetchNoCopy() is used at %s without a null test (fetchNoCopy returns nullptr when the data is short)' % (d['n'], f.loc(bad[0]['i'])),
                                where=f.loc(st['i']))
     if n == 0:
@@ -250,8 +295,18 @@ def r7(ctx, prog):
                 for cond, k, b in f.cfg.controlling_branches(rp):
                     if any(f.stmts[x].get('d') == p_['d'] for x in f.walk(cond) if f.stmts[x]['k'] == 'DeclRefExpr'):
                         ok = True
-        ctx.ob('C14.R7', '%s|recursion' % f.name, ok,
-               'recursive call carries a depth parameter tested on a dominating branch' if ok else
+        why = 'recursive call carries a depth parameter tested on a dominating branch'
+        if not ok:
+            # alternative bound: the call sits in the is_array() branch and only descends into elements tested is_object();
+            # an object argument never reaches the array branch again, so the depth is at most 2
+            arg = f.path(r['args'][0])
+            in_array = any(br in ('then', 'else') and any(c2.get('fn') == 'is_array' for c2 in q.subtree_calls(f, c)) for c, br in q.lexical_guards(f, r['i']))
+            elem_obj = any(br == 'then' and any(c2.get('fn') == 'is_object' and 'obj' in c2 and f.path(c2['obj']) == arg for c2 in q.subtree_calls(f, c)) for c, br in q.lexical_guards(f, r['i']))
+            first = [c for c, br in reversed(q.lexical_guards(f, r['i']))]
+            top_obj = any(any(c2.get('fn') == 'is_object' and f.path(c2['obj']) == f.params[0]['n'] for c2 in q.subtree_calls(f, c)) and br == 'else' for c, br in q.lexical_guards(f, r['i']))
+            if in_array and elem_obj and top_obj:
+                ok, why = True, 'recursion only from the array branch into elements that are objects (which take the object branch): depth <= 2'
+        ctx.ob('C14.R7', '%s|recursion' % f.name, ok, why if ok else
                'onRecvJson recurses once per nested array level of the received JSON with no depth bound', where=f.loc(r['i']))
 
 
